@@ -1,5 +1,6 @@
 """C03 Lattice comparisons, bottom and top agree with merge (engine E1)."""
 from props.C01 import C01
+from props.C04 import HetMixin
 from tools import lat, vlib
 
 
@@ -37,16 +38,23 @@ def degenerate_under(t):
     return False
 
 
-class C03(C01):
+class C03(HetMixin, C01):
     props_vo = "theories/Props/C03.vo"
     theorems = ["C03_order", "C03_eq_equiv", "C03_top", "C03_top_degenerate_refuted"]
     points = False
     pred = "C03_holds_b"
+    model_vo = ["theories/Lattice/Het.vo"]
+    imports = "From HV Require Import Lattice.Het."
     rule = ("typed triples per registered Rust lattice type (as C01); partial_cmp both ways, eq, is_bot, is_top of "
             "a and b compared with the merge flags; non-trivial = not (a=b=c) and a comparison differs from Eq")
 
+    def to_coq(self, case, res):
+        if case["k"] == "het":
+            return lat.het_term(case, res)
+        return C01.to_coq(self, case, res)
+
     def finding_key(self, case, res):
-        if "ab" not in res:
+        if "ab" not in res or case["k"] != "triple":
             return None
         t = lat.parse_type(case["ty"])
         opp = {None: None, "Lt": "Gt", "Gt": "Lt", "Eq": "Eq"}
